@@ -35,12 +35,36 @@ class Cases:
                 "MaxLen": "= %d" % self.maxlen, "EmitJson": "= " + ("TRUE" if self.emit else "FALSE")}
 
 
+class IterCases:
+    """One enumeration of EdgeIter.tla (C08)."""
+    module = "EdgeIter.tla"
+    mode = "iter"
+    kind = "nolabel"
+
+    def __init__(self, name, directed, maxn, maxins=0, workers=4, emit=True, families=None, pinned=()):
+        self.name, self.directed, self.maxn, self.maxins = name, directed, maxn, maxins
+        self.workers, self.emit, self.families, self.pinned = workers, emit, families, pinned
+
+    def constants(self):
+        return {"Directed": "= " + ("TRUE" if self.directed else "FALSE"), "MaxN": "= %d" % self.maxn,
+                "MaxIns": "= %d" % self.maxins, "Pinned": "= " + vf.tla_set(self.pinned),
+                "EmitJson": "= " + ("TRUE" if self.emit else "FALSE")}
+
+    invariants = ["NeverOutOfRange", "Terminates", "CursorValid", "YieldsExactly", "PrefixAlways", "BeginIsEndIffNoEdge"]
+    action_constraints = ["Emit"]
+
+
 def run_cases(pid, cs, ah_exe, seed=1, timeout=3600, extra_plan=None):
     d = vf.fresh_dir(os.path.join(vf.RUN, pid, cs.name))
-    cfg = vf.write_cfg(os.path.join(d, "Derived.cfg"), cs.constants(), action_constraints=[],
-                       invariants=DERIVED_INVARIANTS + (["EmitInv"] if cs.emit else []))
-    cmd = vf.tlc_cmd("Derived.tla", cfg, os.path.join(d, "md"), workers=cs.workers, heap="6g")
-    res = {"cases": cs.name, "kind": cs.kind, "mode": cs.mode, "maxn": cs.maxn}
+    module = getattr(cs, "module", "Derived.tla")
+    if module == "Derived.tla":
+        cfg = vf.write_cfg(os.path.join(d, "Derived.cfg"), cs.constants(), action_constraints=[],
+                           invariants=DERIVED_INVARIANTS + (["EmitInv"] if cs.emit else []))
+    else:
+        cfg = vf.write_cfg(os.path.join(d, module.replace(".tla", ".cfg")), cs.constants(),
+                           action_constraints=cs.action_constraints, invariants=cs.invariants)
+    cmd = vf.tlc_cmd(module, cfg, os.path.join(d, "md"), workers=cs.workers, heap="6g")
+    res = {"cases": cs.name, "kind": getattr(cs, "kind", ""), "mode": getattr(cs, "mode", ""), "maxn": cs.maxn}
     t0 = time.time()
     tlc_log = os.path.join(d, "tlc.log")
     records = os.path.join(d, "records.ndjson")
@@ -142,7 +166,8 @@ def run_ah_on_file(pid, name, cases_path, ah_exe, seed=1, timeout=3600, extra_pl
     return res
 
 
-def validate_records(pid, name, records_path, chunk=4000, timeout=3600, workers=4, parallel=4):
+def validate_records(pid, name, records_path, chunk=4000, timeout=3600, workers=4, parallel=4,
+                     invariants=("AllResultsOK",)):
     """TLC validation (SearchTrace.tla) of a record file, in parallel chunks.
     -> dict(records, accepted, rejected:[{index, record}], tlc_states)"""
     d = vf.fresh_dir(os.path.join(vf.RUN, pid, name + "-validate"))
@@ -159,7 +184,7 @@ def validate_records(pid, name, records_path, chunk=4000, timeout=3600, workers=
         path, offset = item
         cd = path + ".d"
         os.makedirs(cd, exist_ok=True)
-        cfg = vf.write_cfg(os.path.join(cd, "SearchTrace.cfg"), {}, invariants=["AllRecordsOK"])
+        cfg = vf.write_cfg(os.path.join(cd, "SearchTrace.cfg"), {}, invariants=list(invariants))
         # no CONSTANTS section when empty
         with open(cfg) as f:
             txt = f.read().replace("CONSTANTS\n", "")
@@ -176,7 +201,7 @@ def validate_records(pid, name, records_path, chunk=4000, timeout=3600, workers=
         shutil.rmtree(os.path.join(cd, "md"), ignore_errors=True)
         bad = []
         import re
-        for m in re.finditer(r"Invariant AllRecordsOK is violated.*?idx = (\d+)", text, re.S):
+        for m in re.finditer(r"Invariant (?:AllResultsOK|AllScansOK) is violated.*?idx = (\d+)", text, re.S):
             bad.append(int(m.group(1)))
         p = vf.parse_tlc_output(text)
         fatal = None
